@@ -109,7 +109,8 @@ Definition step (st : mstate) : sres :=
     else
       let '(cs, ce) := c n in
       let e := si + ce - cs in
-      if e <=? slen s then
+      (* c.end >= c.start && end <= len(m.s) && ...  (a position capture never matches) *)
+      if (cs <=? ce) && (e <=? slen s) then
         match slice s cs ce with
         | None => SDone OPanic
         | Some l1 =>
@@ -199,7 +200,8 @@ Definition capture_list (ncap : Z) (start e : Z) (c : caps) : list (Z * Z) :=
 Definition api (fromStart : bool) (p : pattern) (fuel : nat) (s : list Z) (init : Z) (B : Z) : apires :=
   let r :=
     if fromStart && p_sanchor p
-    then (run (p_items p) (p_eanchor p) s fuel B 0 (start_state init caps0), init)
+    then (if slen s <? init then (ONoMatch caps0, 0, init)     (* findFromStart: m.si > len(m.s) *)
+          else (run (p_items p) (p_eanchor p) s fuel B 0 (start_state init caps0), init))
     else findLoop (p_items p) (p_eanchor p) s
                   (Z.to_nat (slen s - init + 1)) fuel B 0 init caps0 in
   match r with
